@@ -506,3 +506,26 @@ MANIFEST = dict(
                 'ebpps merge with user allocator, optional::emplace, sorted-view release through the wrong allocator x3, exception safety of copy constructors / update / merge).'),
     design_ref='DESIGN.md section 5 C19, section 7')
 
+
+
+# ---------------------------------------------------------------------------------------------------------------------
+# MUTATIONS (scratch worktree /tmp/wt_ledger = /repo + fixes/03_self_assign + fixes/19_*.patch; VERIF_SEED=1; each run compared
+# with the unmutated worktree, which is green with the exception-safety known findings only)
+#  reported as VIOLATION:
+#   M1  kll ~kll_sketch destroys [begin, end-1)                         (destructor loop bound off by one; DESIGN 9)
+#   M2  theta resize(): deallocate(new_entries, new_size)                (deallocate with the new size after resize; DESIGN 9)
+#   M3  theta copy constructor: entries_ = other.entries_                (shallow copy of a raw buffer; DESIGN 9)
+#   M4  kll move constructor without other.items_ = nullptr              (move leaving the source owning the buffer; DESIGN 9)
+#   M5  kll compress_while_updating destroys half_adj_pop - 1 items
+#   M6  fi hash_delete: moved-from key keys_[probe] not destroyed
+#   M7  theta rebuild(): destroy loop starts at nominal_size + 1
+#   M8  kll add_empty_top_level: deallocate(items_, new_total_cap)
+#   M9  kll operator=(const&): items_size_ not swapped (later deallocate with the wrong size)
+#   M10 req_compactor destructor skips the first item
+#   (DESIGN 9 "missing self-assignment guard (F9 regression)": hll_sketch::operator=; on the unrepaired code the dedicated cases
+#    vshllself* stop under ASan -> sig hll_self_assign, reported as KNOWN-FINDING while that entry is in known_findings.json)
+#  tolerated (exit 0):
+#   H1  theta STRIDE_HASH_BITS 7 -> 8 (different physical slot layout)
+#   H2  kll add_empty_top_level allocates and releases an extra scratch block (allocation count changes, sizes matched)
+#   H3  theta resize(): deallocate the old table before installing the new pointer, no std::swap (order of independent statements)
+# ---------------------------------------------------------------------------------------------------------------------
